@@ -272,6 +272,26 @@ def check_input(torch, c, stats):
                         comm = np.linalg.norm(An @ Xr - Xr @ An, 2) / (np.linalg.norm(An, 2) * np.linalg.norm(Xr, 2))
                         if not comm <= C_BOUND * n * u * kap + 8e-8 * n:
                             out.append((case, f"higher-order solver with rel_epsilon={REL_EPS}: result does not commute with the input ({comm:.2e})"))
+                        # "when both are specified, max(rel_epsilon * lambda_max, abs_epsilon) * I is added": the result with both
+                        # equals the result with only the larger of the two ridges (whatever upper bound lambda_max is)
+                        hocfg = lambda rel: CoupledHigherOrderConfig(order=3, rel_epsilon=rel, tolerance=1e-8)
+                        X_rel = mf.matrix_inverse_root(A, root=r, root_inv_config=hocfg(REL_EPS), epsilon=1e-9 * REL_EPS * lmax).double().numpy()
+                        w_rel = np.sort(np.linalg.eigvalsh((X_rel + X_rel.T) / 2))[::-1]
+                        try:
+                            X_abs = mf.matrix_inverse_root(A, root=r, root_inv_config=hocfg(0.0), epsilon=eps).double().numpy()
+                            w_abs = np.sort(np.linalg.eigvalsh((X_abs + X_abs.T) / 2))[::-1]
+                        except ArithmeticError:
+                            w_abs = None
+                        stats["calls"] = stats.get("calls", 0) + 2
+                        if w_abs is not None and np.all(np.isfinite(w_abs)) and np.all(np.isfinite(w_rel)):
+                            rel_larger = w_rel[0] <= w_abs[0]  # larger ridge <=> smaller largest eigenvalue of X
+                            want = w_rel if rel_larger else w_abs
+                            kap2 = (lmax + min(e_lo, max(eps, 1e-300))) / (float(la.min()) + min(e_lo, max(eps, 1e-300))) if la.min() + min(e_lo, eps) > 0 else float("inf")
+                            d2 = 2 * (C_BOUND * n * u * kap2 + 8 * 1e-8 * max(1.0, n / r.numerator)) + delta
+                            dev = float(np.max(np.abs(wX - want) / want))
+                            stats["ho_rel_max_checked"] = stats.get("ho_rel_max_checked", 0) + 1
+                            if np.isfinite(d2) and d2 < 0.05 and not dev <= d2:
+                                out.append((case, f"higher-order solver with rel_epsilon={REL_EPS} and epsilon={eps:.3g}: eigenvalues of the result deviate by {dev:.2e} from those obtained with only the larger of the two ridges ({'relative' if rel_larger else 'absolute'}); documented: max(rel_epsilon*lambda_max, abs_epsilon)"))
                 except ArithmeticError:
                     stats["ho_raised"] = stats.get("ho_raised", 0) + 1
                 except Exception as ex:
